@@ -345,6 +345,7 @@ def check_c11(v: Verdict, n_worlds: int):
                                    lambda a: conv.structure(a, py_t), allowed, hist, finding=fnd)
         tagged_union_battery(v, rng, w, hist)
     typeddict_override_battery(v, rng, hist, n_worlds)
+    string_annotation_battery(v, hist)
     v.coverage["input_distribution"] = hist
 
 
@@ -442,3 +443,94 @@ def typeddict_override_battery(v, rng, hist, n):
                     check_call(v, "structure (TypedDict hook)", {**desc, "op": "structure", "input": repr(o)[:300]}, o,
                                lambda a: sh(a, TD), {}, hist,
                                finding=("F4", lambda shared, extras=extras: all(i in extras for i in shared)) if extras else None)
+
+
+# ---------------------------------------------------------------------------------- classes with string annotations
+
+STRANN_SRC = '''from __future__ import annotations
+import attrs, dataclasses
+@attrs.define
+class SBase:
+    xs: list[int] = attrs.Factory(list)
+@attrs.define
+class SSub(SBase):
+    ys: dict[str, list[int]] = attrs.Factory(dict)
+    zs: list[list[int]] = attrs.Factory(list)
+@attrs.define
+class SLeaf(SSub):
+    ws: list[SBase] = attrs.Factory(list)
+@dataclasses.dataclass
+class SData:
+    sub: SSub
+    rows: list[list[int]] = dataclasses.field(default_factory=list)
+'''
+
+
+def string_annotation_battery(v: Verdict, hist):
+    """systematic: attrs classes / dataclasses whose annotations are STRINGS (PEP 563), with inheritance; the class-level state
+    attrs keeps about resolved annotations is inherited by subclasses, so the ORDER in which the classes of a hierarchy are first
+    used matters; hooks obtained from the converter, built by the user with make_dict_(un)structure_fn (the documented
+    customisation) or installed by include_subclasses with overrides.  Every call: argument unchanged, no shared mutable container."""
+    import itertools
+    import sys
+    import types as _types
+    from cattrs import Converter
+    from cattrs.gen import make_dict_structure_fn, make_dict_unstructure_fn
+    from cattrs.strategies import configure_tagged_union, include_subclasses
+    n = 0
+    names = ["SBase", "SSub", "SLeaf", "SData"]
+    for order in list(itertools.permutations(names[:3])) + [("SData", "SBase", "SSub"), ("SBase", "SData", "SLeaf")]:
+        for how in ("converter", "make_dict_fn", "make_dict_fn_registered", "include_subclasses_overrides"):
+            for dv in (True, False):
+                modname = f"verif_strann_{n}"
+                mod = _types.ModuleType(modname)
+                sys.modules[modname] = mod
+                try:
+                    exec(compile(STRANN_SRC, modname, "exec"), mod.__dict__)
+                    vals = {"SBase": lambda: mod.SBase([1, 2]),
+                            "SSub": lambda: mod.SSub([1], {"k": [2, 3]}, [[4], [5, 6]]),
+                            "SLeaf": lambda: mod.SLeaf([1], {"k": [2]}, [[3]], [mod.SBase([7]), mod.SSub([8], {"q": [9]}, [[1]])]),
+                            "SData": lambda: mod.SData(mod.SSub([1], {"k": [2]}, [[3]]), [[4, 5]])}
+                    conv = Converter(detailed_validation=dv)
+                    if how == "include_subclasses_overrides":
+                        try:
+                            include_subclasses(mod.SBase, conv, overrides={}, union_strategy=configure_tagged_union)
+                        except Exception:      # noqa  (not this property's business)
+                            hist["hook_creation_failed"] = hist.get("hook_creation_failed", 0) + 1
+                            continue
+                    for nm in order:
+                        cl = getattr(mod, nm)
+                        n += 1
+                        desc = {"lane": "ALIAS/C11 string annotations", "class": nm, "first_use_order": list(order), "hooks_from": how, "detailed_validation": dv,
+                                "classes_source": STRANN_SRC}
+                        f_st = None
+                        if how == "make_dict_fn":
+                            un = make_dict_unstructure_fn(cl, conv)
+                            f_un = (lambda a, un=un: un(a))
+                            try:
+                                st = make_dict_structure_fn(cl, conv)
+                                f_st = (lambda a, st=st, cl=cl: st(a, cl))
+                            except Exception:      # noqa  (not this property's business)
+                                hist["hook_creation_failed"] = hist.get("hook_creation_failed", 0) + 1
+                        else:
+                            if how == "make_dict_fn_registered":
+                                conv.register_unstructure_hook(cl, make_dict_unstructure_fn(cl, conv))
+                                try:
+                                    conv.register_structure_hook(cl, make_dict_structure_fn(cl, conv))
+                                except Exception:      # noqa
+                                    hist["hook_creation_failed"] = hist.get("hook_creation_failed", 0) + 1
+                            f_un, f_st = (lambda a, cl=cl: conv.unstructure(a, unstructure_as=cl)), (lambda a, cl=cl: conv.structure(a, cl))
+                        x = vals[nm]()
+                        hist["unstructure"] += 1
+                        check_call(v, "unstructure", {**desc, "op": "unstructure", "input": repr(x)[:300]}, x, f_un, {}, hist)
+                        try:
+                            u = f_un(vals[nm]())
+                        except Exception:
+                            continue
+                        if f_st is None:
+                            continue
+                        hist["structure"] += 1
+                        check_call(v, "structure", {**desc, "op": "structure", "input": repr(u)[:300]}, u, f_st, {}, hist)
+                finally:
+                    sys.modules.pop(modname, None)
+    hist["string_annotation_calls"] = n
